@@ -95,10 +95,37 @@ func (e editor) leaf(from *Selection, to *Selection, m meta.Leafable, new bool, 
 				return err
 			}
 		}
+		if !new {
+			if err := e.checkKeyLeaf(to, m, hnd.Val); err != nil {
+				return err
+			}
+		}
 		r.Selection = to
 		r.From = from
 		if err := to.set(&r, &hnd); err != nil {
 			return err
+		}
+	}
+	return nil
+}
+
+// checkKeyLeaf refuses to give an existing list item a key other than the one it was selected
+// under. Otherwise an edit addressed to one item could turn it into a second item with the key
+// of another.
+func (e editor) checkKeyLeaf(to *Selection, m meta.Leafable, v val.Value) error {
+	if !to.InsideList || len(to.Path.Key) == 0 {
+		return nil
+	}
+	list, isList := to.Meta().(*meta.List)
+	if !isList {
+		return nil
+	}
+	for i, k := range list.KeyMeta() {
+		if k != m || i >= len(to.Path.Key) || to.Path.Key[i] == nil {
+			continue
+		}
+		if !val.Equal(to.Path.Key[i], v) && to.Path.Key[i].String() != v.String() {
+			return fmt.Errorf("%w. key leaf %s of %s cannot be set to '%s'", fc.BadRequestError, m.Ident(), to.Path.String(), v.String())
 		}
 	}
 	return nil
